@@ -354,6 +354,19 @@ fn tablet_payload(first: i64, last: i64, replicas: &[([u8; 16], i32)]) -> Vec<u8
 
 impl Script for C08Script {
     fn on_user_request(&mut self, w: &mut World, rq: &ReqInfo, req: &Request) -> Reply {
+        // S2c: the table gains a column between two pages of one paged read (ALTER TABLE
+        // while a client iterates): the later page comes with other metadata.
+        if let Request::Execute { params, .. } = req {
+            if rq.marker.map(|m| m >= 2_000_000).unwrap_or(false) && params.paging_state.is_some() {
+                if let Some(idx) = w.cluster.find_stmt(client::Q_PREPARED_SELECT) {
+                    if w.cluster.catalog[idx].result_cols.len() == 1 {
+                        w.cluster.catalog[idx].result_cols.push(col("ks1", "t1", "added", CType::Text));
+                        w.cluster.catalog[idx].schema_version += 1;
+                        w.probe("metadata_changed_between_pages");
+                    }
+                }
+            }
+        }
         if let (Some(cols), Request::Execute { params, .. }) = (self.nometa_bomb, req) {
             if params.skip_metadata && rq.marker.is_some() {
                 let mut b = W::new();
@@ -457,6 +470,11 @@ impl Script for C08Script {
                 }
             }
             return rows;
+        }
+        if stmt.shape == client::Q_PREPARED_SELECT && rq.marker.map(|m| m >= 2_000_000).unwrap_or(false) {
+            // Four rows: read with page size 2 this gives two pages of two rows.
+            let r = crate::cluster::default_rows(stmt, rq.marker);
+            return vec![r[0].clone(); 4];
         }
         if stmt.shape == client::Q_PREPARED_SELECT && rq.marker.map(|m| m >= 1_000_000).unwrap_or(false) {
             // Two rows: read with page size 1 this gives a first page with more pages.
@@ -1051,6 +1069,50 @@ async fn main(plan: Plan) -> Outcome {
                     match r {
                         Ok(v) if v == vec![m2 as i64, m2 as i64] => out.count("paged_after_schema_change_equal", 1),
                         other => out.violation("c08.roundtrip", format!("paged execution after a result-metadata change: {other:?}")),
+                    }
+                }
+            }
+        }
+        // S2c: the result metadata changes between the two pages (two rows each) of one paged
+        // read through a typed stream; the consumer keeps polling after errors.
+        {
+            m += 1;
+            let m3 = 2_000_000 + m;
+            let mut p3 = p.clone();
+            p3.set_page_size(2);
+            let fut = async {
+                use futures::StreamExt;
+                let pager = session.execute_iter(p3, (1i64, m3 as i64)).await.map_err(|e| e.to_string())?;
+                let mut stream = pager.rows_stream::<(i64,)>().map_err(|e| e.to_string())?;
+                let mut oks = Vec::new();
+                let mut errs = 0u32;
+                while let Some(r) = stream.next().await {
+                    match r {
+                        Ok((v,)) => oks.push(v),
+                        Err(_) => errs += 1,
+                    }
+                    if oks.len() + errs as usize > 12 {
+                        break;
+                    }
+                }
+                Ok::<_, String>((oks, errs))
+            };
+            let r = step(&mut out, "execute_paged_across_schema_change", fut).await;
+            {
+                // Back to the one-column table for the steps that follow.
+                let mut w = world::world();
+                if let Some(idx) = w.cluster.find_stmt(client::Q_PREPARED_SELECT) {
+                    if w.cluster.catalog[idx].result_cols.len() == 2 {
+                        w.cluster.catalog[idx].result_cols.pop();
+                        w.cluster.catalog[idx].schema_version += 1;
+                    }
+                }
+            }
+            if let Some(r) = r {
+                if clean {
+                    match r {
+                        Ok((oks, _)) if oks.len() >= 2 && oks[..2] == [m3 as i64, m3 as i64] => out.count("paged_across_schema_change_first_page_equal", 1),
+                        other => out.violation("c08.roundtrip", format!("paged execution across a result-metadata change: {other:?}")),
                     }
                 }
             }
